@@ -5,6 +5,7 @@ import contextlib
 import itertools
 import random
 
+import common
 from common import Report, proof_stage, coq_eval_files, parse_nat_list
 from gencalc import drive
 import asyncstdlib as a
@@ -26,12 +27,19 @@ class E(Exception):
         return "E%d" % self.id
 
 
+class EB(BaseException):
+    """a BaseException that is not an Exception (like a cancellation)"""
+
+    def __init__(self, id):
+        self.id = id
+
+
 class EnterFails(Exception):
     pass
 
 
 def eid(ev):
-    return None if ev is None else (ev.id if isinstance(ev, E) else -1)
+    return None if ev is None else (ev.id if isinstance(ev, (E, EB)) else -1)
 
 
 class Entry:
@@ -44,7 +52,8 @@ class Entry:
         log.append((self.id, eid(ev)))
         b = self.on_none if ev is None else self.on_exc
         if b == "raise":
-            raise E(1000 + self.id * 2 + (0 if ev is None else 1))
+            # odd entries fail with a BaseException that is not an Exception
+            raise (EB if self.id % 2 else E)(1000 + self.id * 2 + (0 if ev is None else 1))
         return b == "truthy"
 
     def raised_id(self, inflight):
@@ -145,7 +154,7 @@ async def do_unwind(stack, block):
             async with stack:
                 raise E(block)
         return ("normal",)
-    except E as e:
+    except (E, EB) as e:
         return ("raises", e.id)
 
 
@@ -223,7 +232,7 @@ def run_nested(entries, block):
         try:
             await nested_with(entries, block, log)
             return ("normal",)
-        except E as e:
+        except (E, EB) as e:
             return ("raises", e.id)
     return drive(go()), log
 
@@ -312,7 +321,7 @@ def run(tier, seed):
     texts, ntexts, fails = [], [], 0
     # (1) stacks of 0..4 entries x block outcome against real nested with statements (and the model's [nested])
     stacks = []
-    nst = 600 if tier == "quick" else 8000
+    nst = 600 * common.scale(rep) if tier == "quick" else 8000
     for _ in range(nst):
         n = rng.randrange(0, 5)
         stacks.append(([mk_entry(rng, i + 1) for i in range(n)], rng.choice(["normal", 5])))
@@ -341,7 +350,7 @@ def run(tier, seed):
         # model: callbacks see the in-flight exception in the model's log; the real ones cannot: use the model's view for exits only
         ntexts.append((entries, block, out_n, log_n, cbids))
     # (2) histories against contextlib.AsyncExitStack and the model
-    nh = 600 if tier == "quick" else 8000
+    nh = 600 * common.scale(rep) if tier == "quick" else 8000
     hist = [gen_history(rng, tier) for _ in range(nh)]
     # corpus: the run-twice defect fixed in /repo
     e1 = Entry(1, "scb", "falsy", "falsy")
